@@ -24,7 +24,7 @@ META = {
 }
 
 B = "src/pest_bridge.rs"
-DECODER_SET = ["parse_u64_lit", "parse_uint_lit", "parse_int_lit", "convert_number_to_type2", "convert_value_to_type2", "unescape_text",
+DECODER_SET = ["parse_u64_lit", "parse_uint_lit", "parse_int_lit", "convert_number_to_type2", "convert_value_to_type2", "unescape_text", "try_unescape_text",
                "hex_decode", "base64_decode", "clean_prefixed_byte_string", "convert_bytes_value_to_type2", "convert_tag_expr",
                "convert_occurrence", "convert_member_key_simple"]
 INT_TYPES = {"i8", "u8", "i16", "u16", "i32", "u32", "i64", "u64", "isize", "usize", "i128", "u128"}
@@ -89,7 +89,7 @@ def r_single(ctx):
     ctx.rule(rid, "integer text is decoded only in parse_u64_lit (from_str_radix / parse), float text only in convert_number_to_type2 "
                   "(parse::<f64>, parse_hexf64); every other function of pest_bridge.rs reaches them through these", floor=4)
     f = ctx.facts
-    allowed = {"from_str_radix": {"parse_u64_lit", "unescape_text"}, "parse": {"parse_u64_lit", "convert_number_to_type2"},
+    allowed = {"from_str_radix": {"parse_u64_lit", "unescape_text", "try_unescape_text"}, "parse": {"parse_u64_lit", "convert_number_to_type2"},
                "parse_hexf64": {"convert_number_to_type2"}}
     for fi in f.fns(B):
         if fi.in_test:
@@ -149,45 +149,149 @@ def r_finite(ctx):
 
 
 FALLIBLE = {"from_str_radix", "from_u32", "parse", "try_from", "try_into", "to_digit", "decode", "decode_mut", "decode_len", "from_utf8", "parse_hexf64",
-            "parse_u64_lit", "parse_uint_lit", "parse_int_lit", "from_digit"}
+            "parse_u64_lit", "parse_uint_lit", "parse_int_lit", "from_digit", "try_unescape_text"}
+
+
+PASS_THROUGH = {"ok", "map", "map_err", "filter", "and_then", "ok_or", "ok_or_else", "or_else", "copied", "cloned", "as_ref", "as_deref",
+                "into_iter", "iter", "flatten", "collect", "transpose", "then_some"}
+SILENT_DEFAULT = {"unwrap_or", "unwrap_or_default", "unwrap_or_else"}
+
+
+def _parents(root):
+    par = {}
+    stack = [(root, None)]
+    while stack:
+        x, p = stack.pop()
+        if isinstance(x, dict):
+            q = p
+            if "k" in x:
+                par[id(x)] = p
+                q = x
+            for v in x.values():
+                if isinstance(v, (dict, list)):
+                    stack.append((v, q))
+        elif isinstance(x, list):
+            for v in x:
+                if isinstance(v, (dict, list)):
+                    stack.append((v, p))
+    return par
+
+
+def _consumption(call, par, fn_node):
+    """how the failure of a fallible conversion is consumed: (verdict, idiom)"""
+    cur = call
+    while True:
+        p = par.get(id(cur))
+        if p is None:
+            return "unknown", "no parent"
+        k = p["k"]
+        if k == "mcall" and p["r"] is cur:
+            if p["m"] in PASS_THROUGH:
+                cur = p
+                continue
+            if p["m"] in SILENT_DEFAULT:
+                return "silent", "failure replaced by a default (`.%s`)" % p["m"]
+            if p["m"] in ("unwrap", "expect"):
+                return "panic", ".%s()" % p["m"]
+            if p["m"] in ("is_ok", "is_some", "is_err", "is_none"):
+                return "ok", "tested with .%s()" % p["m"]
+            return "unknown", "method .%s on the result" % p["m"]
+        if k == "try":
+            return "ok", "propagated with ?"
+        if k == "ret":
+            return "ok", "returned to the caller"
+        if k == "match" and p["e"] is cur:
+            empty = [a for a in p["arms"] if vf.pat_path(a["pat"]) in ("Err", "None") or vf.pat_is_catchall(a["pat"])]
+            for a in empty:
+                body = a["body"]
+                if (body["k"] in ("block", "eblock") and not (body.get("stmts") or body.get("b", {}).get("stmts"))) or (body["k"] == "tuple" and not body.get("e")):
+                    return "silent", "match arm for the failure case is empty"
+            return "ok", "matched with a failure arm"
+        if k == "match":
+            cur = p       # value of an arm is the value of the match
+            continue
+        if k == "let" and p["e"] is cur:
+            # `if let` / `while let` condition
+            gp = par.get(id(p))
+            while gp is not None and gp["k"] == "bin":
+                gp = par.get(id(gp))
+            head = vf.pat_path(p["pat"])
+            if gp is not None and gp["k"] == "if":
+                if head in ("Ok", "Some") and gp.get("e") is None:
+                    return "silent", "`if let %s(..)` without else" % head
+                return "ok", "`if let` with else"
+            if gp is not None and gp["k"] == "while":
+                return "ok", "`while let` (loop ends on failure)"
+            return "unknown", "let-expression in %s" % (gp["k"] if gp else "?")
+        if k == "local":
+            if p.get("els") is not None:
+                return "ok", "`let .. else` diverges"
+            if p["pat"]["k"] == "pwild":
+                return "silent", "`let _ =` discards the result"
+            # bound to a variable: follow no further (the variable is a Result/Option value) -- accepted only when named
+            return "bound", "bound to `%s`" % vf.src(p["pat"])[:30]
+        if k == "sexpr":
+            if p.get("semi"):
+                return "silent", "result discarded by `;`"
+            return "ok", "tail expression: returned to the caller"
+        if k in ("block", "eblock", "arm", "if", "unsafe", "ref", "call", "struct", "fieldval", "tuple", "closure", "macro", "cast", "un", "bin", "field"):
+            if k == "block" or k == "eblock":
+                # tail of a block: keep climbing (value of the block)
+                cur = p
+                continue
+            if k == "arm" or k == "if":
+                cur = p
+                continue
+            if k == "closure":
+                return "ok", "value of a closure (consumed by the adaptor)"
+            if k == "call":
+                # Some(conv(..)?) / Ok(..) wrappers and helper calls: the result flows into the callee
+                cur = p
+                continue
+            cur = p
+            continue
+        if k == "fn":
+            return "ok", "value of the function: returned to the caller"
+        return "unknown", "consumed by a `%s` node" % k
 
 
 def r_discipline(ctx):
     rid = "C07.discipline"
-    ctx.rule(rid, "in the literal decoder set no fallible conversion is consumed by an `if let Ok(..)/Some(..) = conv(..) { .. }` without an "
-                  "else branch: on failure the literal would be silently altered instead of rejected", floor=5)
+    ctx.rule(rid, "every fallible conversion in the literal decoder set (from_str_radix, char::from_u32, parse, try_from/try_into, to_digit, "
+                  "data-encoding decode, from_utf8, parse_*_lit) has its failure propagated (`?`, returned, `let..else`, match/if-let with "
+                  "a failure branch): never `if let Ok/Some(..) = conv {..}` without else, `.unwrap_or*`, `let _ =`, a discarded "
+                  "statement or an empty failure arm — the literal would be silently altered instead of rejected", floor=25)
     f = ctx.facts
     for fn in DECODER_SET:
         for fi in f.fn_all(B, fn):
             cfgk = ",".join(fi.cfg) or "any"
+            par = _parents(fi.node)
             cnt = {}
             for n in vf.walk(fi.node):
-                if n["k"] == "if" and n["c"]["k"] == "let":
-                    head = vf.pat_path(n["c"]["pat"])
-                    if head not in ("Ok", "Some"):
-                        continue
-                    calls = [x for x in vf.walk(n["c"]["e"]) if (x["k"] == "call" and x["f"]["k"] == "path" and x["f"]["p"].split("::")[-1] in FALLIBLE)
-                             or (x["k"] == "mcall" and x["m"] in FALLIBLE)]
-                    if not calls:
-                        continue
-                    c = calls[0]
-                    cname = c["m"] if c["k"] == "mcall" else c["f"]["p"]
-                    base = "%s[%s]|%s" % (fn, cfgk, cname)
-                    i = cnt.get(base, 0)
-                    cnt[base] = i + 1
-                    key = "%s#%d" % (base, i)
-                    ctx.site(rid, key, B, n["l"], {"cond": vf.src(n["c"])[:100], "has_else": n.get("e") is not None})
-                    if n.get("e") is None:
-                        ctx.violation(rid, key, B, n["l"], "%s: failure of `%s` is skipped silently (no else): the literal's value is altered instead of the "
-                                      "document being rejected" % (fn, vf.src(n["c"]["e"])[:70]))
-            # .ok() / unwrap_or on fallible results are the other silent idioms
-            for n in vf.walk(fi.node):
-                if n["k"] == "mcall" and n["m"] in ("unwrap_or", "unwrap_or_default", "unwrap_or_else") and any(
-                        (x["k"] == "mcall" and x["m"] in FALLIBLE) or (x["k"] == "call" and x["f"]["k"] == "path" and x["f"]["p"].split("::")[-1] in FALLIBLE)
-                        for x in vf.walk(n["r"])):
-                    key = "%s[%s]|default:%s" % (fn, cfgk, vf.src(n)[:50])
-                    ctx.site(rid, key, B, n["l"], None)
-                    ctx.violation(rid, key, B, n["l"], "%s: failure of a literal conversion is replaced by a default value (`%s`)" % (fn, vf.src(n)[:70]))
+                if n["k"] == "call" and n["f"]["k"] == "path" and n["f"]["p"].split("::")[-1] in FALLIBLE:
+                    cname = n["f"]["p"]
+                elif n["k"] == "mcall" and n["m"] in FALLIBLE:
+                    cname = n["m"]
+                else:
+                    continue
+                base = "%s[%s]|%s" % (fn, cfgk, cname)
+                i = cnt.get(base, 0)
+                cnt[base] = i + 1
+                key = "%s#%d" % (base, i)
+                verdict, idiom = _consumption(n, par, fi.node)
+                ctx.site(rid, key, B, n["l"], {"call": vf.src(n)[:80], "consumed": idiom})
+                if verdict in ("silent", "panic"):
+                    ctx.violation(rid, key, B, n["l"], "%s: failure of `%s` is not propagated (%s): the literal's value is altered instead of the "
+                                  "document being rejected" % (fn, vf.src(n)[:70], idiom))
+                elif verdict == "bound":
+                    # a Result/Option bound to a name: every later use is a plain value; accept only when the binding's
+                    # pattern is a simple identifier that is itself consumed by `?`, match or if-let-else later in the body
+                    name = idiom[len("bound to `"):-1]
+                    uses = [u for u in vf.walk(fi.node) if u["k"] in ("try", "match", "mcall") and name and name in vf.src(u.get("e") or u.get("r") or {})]
+                    if not uses:
+                        ctx.incomplete_msg(rid, "%s: result of `%s` is bound to `%s` and its consumption could not be followed" % (fn, vf.src(n)[:50], name))
+                elif verdict == "unknown":
+                    ctx.incomplete_msg(rid, "%s: unrecognised consumption of `%s`: %s" % (fn, vf.src(n)[:60], idiom))
 
 
 def r_slices(ctx):
